@@ -67,6 +67,40 @@ def _items(l0, l1, l2, n, payload):
     return items
 
 
+_GUARD = r"""
+import ctypes, mmap, sys
+import numpy as np
+from fastparquet import speedups
+raw = bytes.fromhex(sys.argv[1]); n = int(sys.argv[2]); utf = int(sys.argv[3])
+page = mmap.PAGESIZE
+libc = ctypes.CDLL(None, use_errno=True)
+libc.mmap.restype = ctypes.c_void_p
+libc.mmap.argtypes = [ctypes.c_void_p, ctypes.c_size_t, ctypes.c_int, ctypes.c_int, ctypes.c_int, ctypes.c_long]
+base = libc.mmap(None, 2 * page, 3, 0x22, -1, 0)
+libc.mprotect.argtypes = [ctypes.c_void_p, ctypes.c_size_t, ctypes.c_int]
+assert libc.mprotect(base + page, page, 0) == 0
+start = base + page - len(raw)
+ctypes.memmove(start, raw, len(raw))
+arr = np.ctypeslib.as_array((ctypes.c_uint8 * max(len(raw), 1)).from_address(start if raw else base))[:len(raw)]
+out = speedups.unpack_byte_array(arr, n, utf)
+print("ok", len(out))
+"""
+
+
+def _guarded_unpack(raw, n, utf):
+    """runs the compiled decoder in a child process on a buffer that ends exactly at an inaccessible page;
+    returns a description if the child dies (a read past the end of the buffer), else None"""
+    import subprocess
+    import sys as _sys
+    envv = dict(os.environ)
+    envv["PYTHONPATH"] = os.pathsep.join([p for p in (STAGE,) if p] + [envv.get("PYTHONPATH", "")])
+    p = subprocess.run([_sys.executable, "-c", _GUARD, bytes(raw).hex(), str(int(n)), str(int(bool(utf)))],
+                       capture_output=True, text=True, env=envv, timeout=120)
+    if p.returncode < 0:
+        return "the process died with signal %d" % (-p.returncode)
+    return None
+
+
 def h_unpack(n: int, l0: int, l1: int, l2: int, payload: List[int], pad: int, utf: bool) -> bool:
     """
     pre: 1 <= n <= 3 and 0 <= l0 <= 2 and 0 <= l1 <= 2 and 0 <= l2 <= 2 and (pad == 0 or pad == 1 or pad == 4 or pad == 8)
@@ -86,7 +120,11 @@ def replay_h_unpack(n, l0, l1, l2, payload, pad, utf):
     import numpy as np
     items = _items(l0, l1, l2, n, payload)
     if DRIFT:
-        ok = h_unpack(n, l0, l1, l2, payload, pad, utf)
+        try:
+            ok = h_unpack(n, l0, l1, l2, payload, pad, utf)
+        except rt.CapacityViolation as ex:
+            return True, "speedups.pyx differs from the generated C; the .pyx as written reads outside the page " \
+                         "buffer on items %r + %d padding bytes: %s" % (items, pad, ex)
         return (not ok), "speedups.pyx differs from the generated C; the .pyx as written mis-decodes %r" % (items,)
     from fastparquet import speedups
     raw = bytes(_encode(items)) + bytes(pad)
@@ -94,6 +132,10 @@ def replay_h_unpack(n, l0, l1, l2, payload, pad, utf):
         # keep the item bytes valid UTF-8 for the concrete run
         items = [[b & 0x7f for b in it] for it in items]
         raw = bytes(_encode(items)) + bytes(pad)
+    died = _guarded_unpack(raw, n, utf)
+    if died:
+        return True, "unpack_byte_array on %d items %r followed by %d padding bytes, buffer placed flush against an " \
+                     "inaccessible page: %s" % (n, [bytes(it) for it in items], pad, died)
     out = speedups.unpack_byte_array(np.frombuffer(raw, dtype="uint8") if raw else np.zeros(0, "uint8"), n, utf)
     want = [bytes(it).decode() if utf else bytes(it) for it in items]
     if list(out) != want:
